@@ -120,7 +120,6 @@ DepConds(ev) ==
     LET op == call.op
     IN CASE ev.e = "Alloc" ->
             << Cond("alloc-through-injected", {"C18", "C13"}, ev.impl = deps.alloc),
-               Cond("alloc-only-in-constructors", {"C15", "C13"} \cup OpProps(op), op \in ConstructorOps),
                Cond("alloc-fresh-block", {"C15"}, ev.blk = 0 \/ ev.blk \notin DOMAIN blocks) >>
          [] ev.e = "Free" ->
             << Cond("free-through-injected", {"C18", "C13"}, ev.impl = deps.free),
@@ -155,7 +154,8 @@ DepConds(ev) ==
                   Cond("keygen-salt-32-bytes", {"C04", "C13"}, ev.saltlen = 32),
                   Cond("keygen-salt", {"C04", "C13"}, ev.salt = KeygenSalt(s, call.a.coin)),
                   Cond("keygen-iterations", {"C04", "C13"}, ev.iter_lo = KdfIterations /\ ev.iter_hi = 0),
-                  Cond("keygen-keylen", {"C04", "C13"}, ev.keylen = call.a.size),
+                  Cond("keygen-keylen", {"C04", "C13"},
+                       ev.keylen = call.a.size /\ ev.keylen_mid = call.a.size_mid /\ ev.keylen_hi = call.a.size_hi),
                   Cond("keygen-caller-buffer", {"C04", "C13"}, ev.callerkey) >>
             ELSE IF op = "Crypt" THEN
             LET norm == NormOf(call.a.pw)
@@ -167,7 +167,7 @@ DepConds(ev) ==
                   Cond("crypt-password", {"C12", "C19", "C13"}, ev.pw = norm),
                   Cond("crypt-salt", {"C12", "C13"}, ev.saltlen = 16 /\ ev.salt = MaskSalt),
                   Cond("crypt-iterations", {"C12", "C13"}, ev.iter_lo = KdfIterations /\ ev.iter_hi = 0),
-                  Cond("crypt-keylen", {"C12", "C13"}, ev.keylen = 32) >>
+                  Cond("crypt-keylen", {"C12", "C13"}, ev.keylen = 32 /\ ev.keylen_mid = 0 /\ ev.keylen_hi = 0) >>
             ELSE << Cond("kdf-only-in-keygen-and-crypt", {"C04", "C12", "C13"} \cup OpProps(op), FALSE) >>
          [] ev.e = "Nfkd" ->
             << Cond("nfkd-through-injected", {"C18", "C13"}, ev.impl = deps.nfkd),
@@ -191,7 +191,12 @@ DepConds(ev) ==
             THEN NfcConds(ev, EncodeDecomposed(SeedOf(call.a.h), call.a.lang, call.a.coin))
             ELSE << Cond("nfc-only-in-encode-of-composing-language", {"C03", "C13"} \cup OpProps(op), FALSE) >>
          [] ev.e = "Forbidden" ->
-            << Cond("no-other-source-of-time-randomness-or-memory", {"C18", "C13"}, FALSE) >>
+            << Cond("no-other-source-of-time-randomness-or-memory",
+                    {"C13"} \cup (CASE ev.sym \in {"getenv", "setlocale"} -> {"C07", "C09"}       \* hidden input from the process environment
+                                    [] ev.sym = "explicit_bzero" -> {"C16"}                     \* wiping behind the injected function
+                                    [] ev.sym = "strtok" -> {"C20", "C14"}                      \* hidden static state in libc
+                                    [] OTHER -> {"C18"}),
+                    FALSE) >>
          [] OTHER -> << Cond("unknown-dependency-event", {"C13"}, FALSE) >>
 
 AllOk(conds) == \A i \in 1..Len(conds) : conds[i].ok
